@@ -93,11 +93,21 @@ def invariant_basis(Gp, M: int, D: int, k: int, p: int) -> np.ndarray:
         return np.zeros((0,) + shape)
     # greedy independent subset (orbit sums of distinct orbits have disjoint or equal supports up to sign,
     # but tensor components can make them dependent, so test rank incrementally)
-    basis = []
-    for r in rows:
-        cand = basis + [r]
-        if np.linalg.matrix_rank(np.array(cand), tol=1e-9) == len(cand):
-            basis.append(r)
+    mat = np.array(rows)
+    if len(rows) <= 24:
+        basis = []
+        for r in rows:
+            cand = basis + [r]
+            if np.linalg.matrix_rank(np.array(cand), tol=1e-9) == len(cand):
+                basis.append(r)
+    else:
+        # independent subset by QR with column pivoting on the transposed family
+        from scipy.linalg import qr
+
+        _, R, piv = qr(mat.T, mode="economic", pivoting=True)
+        d = np.abs(np.diag(R))
+        rnk = int((d > 1e-9 * max(1.0, d[0])).sum())
+        basis = [rows[i] for i in sorted(piv[:rnk])]
     out = np.array(basis).reshape((len(basis),) + shape)
     assert len(basis) == invariant_dim(Gp, M, D, k, p), (len(basis), invariant_dim(Gp, M, D, k, p))
     return out
